@@ -42,7 +42,9 @@ func (s *Sym) String() string {
 	}
 	var r string
 	switch s.Kind {
-	case "param", "free", "global", "func":
+	case "free":
+		r = s.Name + "°"
+	case "param", "global", "func":
 		r = s.Name
 	case "alloc":
 		r = s.Name + "'"
@@ -351,9 +353,20 @@ func (p *Prog) Sym(v ssa.Value) *Sym {
 		if mc := p.parentMC[x.Parent()]; mc != nil {
 			for i, fv := range x.Parent().FreeVars {
 				if fv == x && i < len(mc.Bindings) {
-					*s = *p.Sym(mc.Bindings[i])
-					s.str = ""
-					p.symMemo[v] = s
+					inner := p.Sym(mc.Bindings[i])
+					switch inner.Strip().Kind {
+					case "param", "alloc", "new", "closure", "func", "make", "global":
+						// a captured parameter / variable: the same object in the closure
+						*s = *inner
+						s.str = ""
+						p.symMemo[v] = s
+						return s
+					}
+					// a captured variable holding a value COMPUTED in the enclosing function
+					// (a call result, a field read, arithmetic): it was evaluated when the
+					// closure was created, not when the closure runs — keep it distinct
+					s.Kind, s.Name = "free", x.Name()
+					s.Args = []*Sym{inner}
 					return s
 				}
 			}
@@ -408,6 +421,7 @@ func (p *Prog) Sym(v ssa.Value) *Sym {
 		}
 		s.Kind, s.Name = "binop", x.Op.String()
 		s.Args = []*Sym{p.Sym(x.X), p.Sym(x.Y)}
+		canonBinop(s, x.Op)
 	case *ssa.Call:
 		p.symCall(s, x)
 	case *ssa.Extract:
@@ -621,6 +635,30 @@ func isRangeIndexPhi(phi *ssa.Phi) bool {
 	return false
 }
 
+// canonBinop puts comparisons and commutative operations into a canonical operand
+// order so that `nil != x`, `2 == n`, `max > i` and `1 + n` match the same rules as
+// `x != nil`, `n == 2`, `i < max` and `n + 1`: constants go right; a loop counter goes left.
+func canonBinop(s *Sym, op token.Token) {
+	l, r := s.Args[0].Strip(), s.Args[1].Strip()
+	swap := false
+	switch {
+	case l.Kind == "const" && r.Kind != "const":
+		swap = true
+	case r.Kind == "ind" && l.Kind != "ind" && l.Kind != "const":
+		swap = true
+	}
+	if !swap {
+		return
+	}
+	switch op {
+	case token.EQL, token.NEQ, token.ADD, token.MUL, token.AND, token.OR, token.XOR:
+		s.Args[0], s.Args[1] = s.Args[1], s.Args[0]
+	case token.LSS, token.GTR, token.LEQ, token.GEQ:
+		s.Args[0], s.Args[1] = s.Args[1], s.Args[0]
+		s.Name = flipOp(op).String()
+	}
+}
+
 func isParamVal(v ssa.Value) bool { _, ok := v.(*ssa.Parameter); return ok }
 
 // inLoop: block is part of a CFG cycle.
@@ -656,15 +694,19 @@ func (p *Prog) induction(v ssa.Value) *Ind {
 				if bo, ok := r.(*ssa.BinOp); ok {
 					switch bo.Op {
 					case token.LSS, token.LEQ, token.GTR, token.GEQ:
-						if bo.X == cur {
-							// must control a loop exit: used by an If
-							if brefs := bo.Referrers(); brefs != nil {
-								for _, br := range *brefs {
-									if _, ok := br.(*ssa.If); ok {
-										ind.Op = bo.Op
-										ind.Incl = bo.Op == token.LEQ || bo.Op == token.GEQ
-										ind.Bound = p.Sym(bo.Y)
-									}
+						op, bound := bo.Op, bo.Y
+						if bo.Y == cur && bo.X != cur {
+							op, bound = flipOp(bo.Op), bo.X // `max > i` is `i < max`
+						} else if bo.X != cur {
+							continue
+						}
+						// must control a loop exit: used by an If
+						if brefs := bo.Referrers(); brefs != nil {
+							for _, br := range *brefs {
+								if _, ok := br.(*ssa.If); ok {
+									ind.Op = op
+									ind.Incl = op == token.LEQ || op == token.GEQ
+									ind.Bound = p.Sym(bound)
 								}
 							}
 						}
